@@ -44,7 +44,7 @@ def rdkit_to_networkx(rdkit_mol):
         props['hcount'] = atom.GetTotalNumHs()
 
         if conf:
-            pos = conf.GetAtomPosition(idx)
+            pos = conf.GetAtomPosition(atom.GetIdx())
             props['position'] = np.array([pos.x, pos.y, pos.z])
 
         out_mol.add_node(atom.GetIdx(), **props)
